@@ -43,6 +43,9 @@ def mk(tname, **kw):
         i = I.RegexInput("x", "^(0[1-9]|1[0-2]|2[1-9]|3[0-2])[0-9]{7}$")
     elif tname == "account":
         i = I.RegexInput("x", "^[0-9A-Za-z\\-]{1,17}$")
+    elif tname == "prefix5":
+        # a pattern input whose pattern is NOT anchored: it must still match from the first character (a ZIP code, possibly ZIP+4)
+        i = I.RegexInput("x", "[0-9]{5}")
     elif tname == "enum":
         i = I.EnumInput("x", E.taxpayer_spouse_or_both, allow_empty=kw.get("blank", False))
     i.__form_init__(FakeForm())
@@ -171,6 +174,10 @@ def texts_for(tname, tier, rng):
                 "011000015\n", "٠11000015", "", "011-000-015"]
         for _ in range(300 if tier == "quick" else 3000):
             out.append("".join(rng.choice("0123456789") for _ in range(9)))
+    elif tname == "prefix5":
+        out += ["27514", "27514-1234", " 27514 ", "zip 27514", "#27514", "-27514", "2751", "2751a4", "a27514", "", "275140000", "x", "٢٧٥١٤"]
+        for _ in range(200 if tier == "quick" else 2000):
+            out.append("".join(rng.choice("0123456789 -az#") for _ in range(rng.randint(3, 9))))
     elif tname == "account":
         out += ["12345", "A-1", "a" * 17, "a" * 18, "", " ", "12 34", "12_34", "12.34", "-", "é12", "12345\n", "١٢٣"]
         for _ in range(300 if tier == "quick" else 3000):
@@ -195,7 +202,7 @@ def c11(tier):
     obs = []
     work = common.mkwork()
     try:
-        for tname in ("integer", "float", "boolean", "enum", "ssn", "routing", "account", "string"):
+        for tname in ("integer", "float", "boolean", "enum", "ssn", "routing", "account", "prefix5", "string"):
             texts = texts_for(tname, tier, rng)
             for blank in ((False, True) if tname == "enum" else (False,)):
                 for s in texts:
